@@ -314,7 +314,7 @@ theorem ex_groups : GroupsOk exSlots false exSlots exGroups := by
   have hm2 : goMake 2 1 = .ok () 2 := by simp [goMake, maxAlloc]
   rw [exSlots_eq]
   simp [exGroups, GroupsOk, GroupOk, ElOk, itemVals, knownTyp, critical, readKind, readUintLoop,
-    fits, hg, hm1, hm2, Res.bind, beDec]
+    fits, hg, hm1, hm2, Res.bind, beDec, beDecMod]
   intro rest
   exact ⟨2, by rw [if_neg (by omega)]⟩
 
